@@ -40,6 +40,14 @@ materialize_dialect.update_keywords_set_from_multiline_string(
     "reserved_keywords", materialize_reserved_keywords
 )
 
+# Keywords which grammar elements of this dialect (including inherited
+# ones) refer to, but which are in neither keyword set.
+materialize_dialect.sets("unreserved_keywords").update(
+    [
+        "CONCURRENTLY",
+    ]
+)
+
 
 class StatementSegment(ansi.StatementSegment):
     """A generic segment, to any of its child subsegments."""
